@@ -4,6 +4,8 @@ From Coq Require Import Bool List NArith ZArith Lia.
 From M Require NumList.
 From M Require ExprCap.
 From M Require ChanSpec.
+From M Require ChanList.
+From M Require ChanSpec.
 From M Require DecSpec.
 From M Require ExprModel.
 From M Require LexBounds.
@@ -69,4 +71,42 @@ Theorem C19_channel_spec_walk :
 Proof. exact (@ChanSpec.channel_spec_walk). Qed.
 End T_channel_spec_walk.
 Definition C19_channel_spec_walk := @T_channel_spec_walk.C19_channel_spec_walk.
+
+Module T_chanlist_walk_spec. Import ChanList. Local Open Scope bool_scope. Local Open Scope Z_scope.
+Import LexModel LexBounds DecSpec MoreSpecs ExprModel NumList ChanSpec. Local Open Scope Z_scope.
+Local Open Scope Z_scope.
+Theorem C19_chanlist_walk_spec :
+  forall es fuel body pos i index cap, Forall centry_ok es -> es <> [] -> 0 <= pos -> i <= index ->
+  drop pos body = render_cl es -> (length es < fuel)%nat ->
+  let k := Z.to_nat (index - i) in
+  match nth_error es k with
+  | Some e => chanlist_walk fuel body pos i index cap = expected_c body (pos + centry_off es k) cap e
+  | None => exists isr vf vt dims, chanlist_walk fuel body pos i index cap = (ENOMORE, isr, vf, vt, dims, pos + Z.of_nat (length (render_cl es)))
+  end.
+Proof. exact (@ChanList.chanlist_walk_spec). Qed.
+End T_chanlist_walk_spec.
+Definition C19_chanlist_walk_spec := @T_chanlist_walk_spec.C19_chanlist_walk_spec.
+
+Module T_chanlist_spec. Import ChanList. Local Open Scope bool_scope. Local Open Scope Z_scope.
+Import LexModel LexBounds DecSpec MoreSpecs ExprModel NumList ChanSpec. Local Open Scope Z_scope.
+Local Open Scope Z_scope.
+Theorem C19_chanlist_spec :
+  forall es index cap,
+  Forall centry_ok es -> es <> [] -> 0 <= index ->
+  let body := 64%N :: render_cl es in
+  match nth_error es (Z.to_nat index) with
+  | Some e => exists p, expected_c body (1 + centry_off es (Z.to_nat index)) cap e = (EOK, match snd e with Some _ => true | None => false end,
+                          dim_values body (1 + centry_off es (Z.to_nat index)) (fst e) 0 cap [],
+                          match snd e with Some t => dim_values body (1 + centry_off es (Z.to_nat index) + Z.of_nat (length (spec_text (fst e))) + 1) t 0 cap [] | None => [] end,
+                          Z.of_nat (length (fst e)), p) /\
+                chanlist_entry body index cap =
+                (EOK, match snd e with Some _ => true | None => false end,
+                 dim_values body (1 + centry_off es (Z.to_nat index)) (fst e) 0 cap [],
+                 match snd e with Some t => dim_values body (1 + centry_off es (Z.to_nat index) + Z.of_nat (length (spec_text (fst e))) + 1) t 0 cap [] | None => [] end,
+                 Z.of_nat (length (fst e)), 0)
+  | None => exists isr vf vt dims, chanlist_entry body index cap = (ENOMORE, isr, vf, vt, dims, 0)
+  end.
+Proof. exact (@ChanList.chanlist_spec). Qed.
+End T_chanlist_spec.
+Definition C19_chanlist_spec := @T_chanlist_spec.C19_chanlist_spec.
 
